@@ -7,7 +7,7 @@ from hypothesis import strategies as st
 
 from .. import gen, model
 from ..core import SKIP, Enum, Sub
-from ..util import carr, arr, compare, flags, tarr
+from ..util import carr, arr, compare, epoch32, flags, tarr
 
 ID = "C11"
 RULE = ("regular axes with step D in {1,2,7,60,900,3600}; n=0..30; series of plateau/step/noise segments over a 3-5 letter "
@@ -89,12 +89,14 @@ def flat_case(draw, tier="quick"):
     tol = draw(st.one_of(*tol_choices))
     t0 = draw(st.sampled_from([0, -10, 1577836800, 1582934400 - 5 * D]))
     return {"x": x, "t0": t0, "D": D, "suspect": s, "fail": f, "tol": tol,
-            "tc": draw(st.sampled_from(["dt64", "dt64", "epoch"])), "tol_default": False}
+            "tc": draw(st.sampled_from(["dt64", "dt64", "epoch", "epoch32"])), "tol_default": False}
 
 
 def case_times(case):
     import numpy as np
     t = [case["t0"] + i * case["D"] for i in range(len(case["x"]))]
+    if case["tc"] == "epoch32":
+        return epoch32(t)
     return np.array(t, dtype="int64") if case["tc"] == "epoch" else tarr(t)
 
 
